@@ -83,7 +83,7 @@ def check(ctx):
         "the consumer's filter is matched structurally."
     )
     ctx.assumptions += ["numpy.searchsorted(a, v, side='right') - 1 is the index of the last element of the sorted array a that is <= v",
-                        "np.divide(x, y, where=y != 0, out=zeros) is x / y where y != 0 and 0 elsewhere"]
+                        "np.divide(x, y, where=c, out=buf) is x / y where c holds and keeps buf's values elsewhere, in buf's dtype"]
     f = ctx.fn(VD, "VersionedDataHandler.compute_versioned_margin_estimate")
     g = f.nested.get("compute_estimated_margin")
     ctx.require(g is not None, f"{f.where()}: per-unit function compute_estimated_margin not found")
